@@ -60,19 +60,21 @@ PLAN = {
     ),
     "C07": dict(
         verus=["group_cycle"], kani=["wkc", "frame_build"], level="proof",
-        claim="SubDeviceGroup::tx_rx extracted WHOLE and verbatim (Verus, any image length <= MAX_PDI, any input/output split, any number of SubDevices, any "
+        claim="SubDeviceGroup::tx_rx, tx_rx_sync_system_time and tx_rx_dc extracted WHOLE and verbatim (Verus, any image length <= MAX_PDI, any input/output split, any number of SubDevices, any "
               "frame size from one state check up to 2047): each frame's process-data datagram is an LRW at start + (bytes sent so far) carrying exactly the next "
               "n = min(bytes left, free-12) > 0 image bytes (chunks tile the window contiguously, no gap, no overlap); the output part of the image is untouched; "
               "the input part equals the bytes returned for those addresses; the reported counter is the (saturating) sum of the LRW counters; one state per "
-              "SubDevice; on Ok the whole image was sent and every SubDevice checked; the loop terminates (measure: bytes left + devices left). Leaves: "
+              "SubDevice; on Ok the whole image was sent and every SubDevice checked; the loop terminates (measure: bytes left + devices left [+1 until the clock "
+              "datagram is answered]); the DC variants start exactly the FIRST frame with one FRMW(reference clock, 0x0910, 8 bytes) and no later frame carries one. Leaves: "
               "push_state_checks (k = min(devices left, floor(free/14), 129), group order), process_received_pdi_chunk (full frame condition).",
         note="network = echo-shape assumption (a reply has the datagram boundaries of the request, contents arbitrary); CreatedFrame seen through its push contract "
-             "(decided by C04, bounded) and ReceivedPduIter::next through its contract (Kani wkc::rx_pdu_iter, bounded DATA=44); tx_rx_sync_system_time and tx_rx_dc "
-             "have the same loop shape but are NOT yet extracted; 'states in group order' is proved as a count, not per entry",
+             "(decided by C04, bounded) and ReceivedPduIter::next through its contract (first item: Kani wkc::rx_pdu_iter_first; later items ASSUMED - CBMC does "
+             "not finish two calls); 'states in group order' is proved as a count, not per entry; 'reported system time is the FRMW answer' is not stated",
     ),
     "C18": dict(
-        verus=["dc_arith"], kani=[], level="proof",
-        claim="the two arithmetic fragments, verbatim from configure_dc_sync and tx_rx_dc (Verus, unbounded): SYNC0 start time is a multiple of the period in "
+        verus=["dc_arith", "group_cycle"], kani=[], level="proof",
+        claim="tx_rx_dc extracted whole (Verus): the returned CycleInfo satisfies cycle_start_offset = dc_system_time mod period and next_cycle_wait = "
+              "(period - offset) + shift, without overflow, for every time value; plus the two arithmetic fragments, verbatim from configure_dc_sync and tx_rx_dc (Verus, unbounded): SYNC0 start time is a multiple of the period in "
               "(t+d-p, t+d] for all 1<=p<=u32::MAX, d<=u32::MAX; cycle offset = time mod period and wait = (period-offset)+shift without overflow for every u64 time",
         note="assumes t+d representable in u64 and shift <= 2^33; period 0 is outside the quantifier (division by zero, noted as D19). The u32 range checks, "
              "the register write order / activation flags and the 'only DC devices that asked for it' filter live in the surrounding async fns and are NOT decided",
